@@ -161,6 +161,7 @@ def run(ctx):
     impls = trait_impls(F, SM_TRAIT + "apply_chunk")
     ctx.floor("C22-a", len(impls), 2, "impls of StateMachine::apply_chunk")
     n_tab = 0
+    n_result = {}
     tables = {}
     for root in impls:
         tag = engine_of(root)
@@ -231,6 +232,7 @@ def run(ctx):
                     a = arm_of(mbody, marms, bi)
                     if not a or a[0].variants != {"CompareAndSwap"}:
                         continue
+                    n_result[(tag, what)] = n_result.get((tag, what), 0) + 1
                     ok, wit, _ = guarded_by(mbody, bi, lambda c: from_decision(c) is want, mconds)
                     ctx.check("C22-c", "%s#result-%s-under-flag" % (key, what), ok, "ApplyResult::%s only when the flag is %s" % (what, want),
                               "ApplyResult::%s is produced on a path where the CAS decision is not %s: the client is told the opposite of what "
@@ -311,6 +313,9 @@ def run(ctx):
                           "decides on the pre-chunk value. History: one chunk [%s(x), CAS(x ...)] evaluates the CAS against the value before the chunk"
                           % (want, want), loc(b, entry))
     ctx.floor("C22-a", n_tab, 2, "CAS decision tables extracted (one per engine)")
+    for tg_ in sorted(tables):
+        for what in ("success", "failure"):
+            ctx.floor("C22-c", n_result.get((tg_, what), 0), 1, "ApplyResult::%s built in the CompareAndSwap arm of the %s engine (under the decision flag)" % (what, tg_))
     if len(tables) >= 2:
         vals = list(tables.values())
         ctx.check("C22-a", "apply_chunk#cas#siblings-agree", all(v == vals[0] for v in vals), "all engines implement the same CAS table",
